@@ -20,7 +20,7 @@ def fsmOf : String → Option Fsm
 
 def internal (_ : St) : List Act :=
   [.runEnter, .runToRunning, .runSelCtx, .runSelStop, .runSelErr, .runToStopping, .runStopBegin, .runStopEnd, .runFinish,
-   .rlEnter, .rlDecide, .rlStopBegin, .rlStopEnd, .rlSetConfig, .rlBoot, .rlChildReload, .rlFinish]
+   .rlEnter, .rlAfterCb, .rlDecide, .rlStopBegin, .rlStopEnd, .rlSetConfig, .rlBoot, .rlChildReload, .rlFinish]
 
 /-- an observation that changes nothing in the model -/
 def noop (s : St) : List Act := [.observe s.fsm]
